@@ -128,8 +128,10 @@ def run_case(case, res, verbose=False):
     res.state('result', out)
     bad = live_vs_parse(root, 'Module')
     if bad:
-        res.fail(cid, 'C01:live-tree-differs-from-parse',
-                 f'{bad}\nparent={psrc!r} slot={O.path_str(path)} child={csrc!r} form={form} opts={opts}', case, case)
+        # input-side fact for the known-finding selector: the caller asked to keep the new code's own parentheses (pars=True)
+        params = dict(case, pars_true_own_parens=bool(opts.get('pars') is True and form in ('srcpar', 'fstpar')))
+        res.fail(cid, 'C01:source-does-not-parse' if bad.startswith('source does not parse') else 'C01:live-tree-differs-from-parse',
+                 f'{bad}\nparent={psrc!r} slot={O.path_str(path)} child={csrc!r} form={form} opts={opts}', params, case)
         return
     if exp_status in ('ok', 'ok-parse-only'):
         res.traces += 1
